@@ -12,8 +12,117 @@ RULE = ("as C03 with derived classes overriding block names in 80% of the trees,
         "compared after every call: the enabled flag of every block of every instance, the blocks entering the call (their "
         "lowered formulas), rand sets, values")
 
+def toggle_growth_histories(ck, tier, cases):
+    """Blocks that range over a list (foreach, indexed references), switched off and on around calls while the user grows the
+    list: on every call the blocks that are on (most-derived, of this instance) hold over the list as it is then, and the
+    elements are free of the blocks that are off (checked by frequency over the calls of one history: an element that never
+    leaves the off block's range in 12 draws of an 8-bit field is reported).  Top-level, nested and list-held instances."""
+    if cases is not None:
+        return
+    import random
+    import solvelib as S
+    S.install()
+    import vsc
+
+    @vsc.randobj
+    class Item:
+        def __init__(self):
+            self.l = vsc.rand_list_t(vsc.uint8_t(), sz=2)
+            self.m = vsc.rand_list_t(vsc.uint8_t(), sz=2)
+
+        @vsc.constraint
+        def small_c(self):
+            with vsc.foreach(self.l, idx=True) as i:
+                self.l[i] < 10
+
+        @vsc.constraint
+        def big_c(self):
+            with vsc.foreach(self.m) as e:
+                e > 200
+
+    @vsc.randobj
+    class Derived(Item):
+        def __init__(self):
+            super().__init__()
+
+        @vsc.constraint
+        def small_c(self):
+            with vsc.foreach(self.l, idx=True) as i:
+                self.l[i] < 5
+
+    @vsc.randobj
+    class Holder:
+        def __init__(self):
+            self.sub = vsc.rand_attr(Item())
+            self.arr = vsc.rand_list_t(Item())
+            for _ in range(2):
+                self.arr.append(Derived())
+    rng = random.Random("C07/toggle-growth/%d" % ck.seed)
+    n_hist = 60 if tier == "thorough" else 6
+    for h in range(n_hist):
+        top = rng.choice(["item", "derived", "holder"])
+        root = {"item": Item, "derived": Derived, "holder": Holder}[top]()
+        insts = {"item": [((), root, 10)], "derived": [((), root, 5)]}.get(top) or \
+            [(("sub",), root.sub, 10), (("arr", 0), root.arr[0], 5), (("arr", 1), root.arr[1], 5)]
+        state = {k: {"small_c": True, "big_c": True} for k in range(len(insts))}
+        ops = []
+        free_seen = {}
+        for step in range(rng.randint(6, 14)):
+            x = rng.random()
+            k = rng.randrange(len(insts))
+            path, o, lim = insts[k]
+            if x < 0.35:
+                bn = rng.choice(["small_c", "big_c"])
+                v = not state[k][bn] if rng.random() < 0.8 else state[k][bn]
+                ops.append(["constraint_mode", list(path), bn, v])
+                getattr(o, bn).constraint_mode(v)
+                state[k][bn] = v
+            elif x < 0.55:
+                which = rng.choice(["l", "m"])
+                n = rng.randint(1, 4)
+                ops.append(["grow", list(path), which, n])
+                for _ in range(n):
+                    getattr(o, which).append(0)
+            else:
+                sd = rng.randrange(1 << 30)
+                ops.append(["randomize", sd])
+                root.set_randstate(vsc.RandState.mkFromSeed(sd))
+                ck.count("eval_toggle_growth_calls")
+                try:
+                    with common.quiet():
+                        root.randomize()
+                except Exception as e:
+                    ck.oracle_fail("toggle-growth-call-raised:%s" % type(e).__name__, {"top": top, "ops": ops}, str(e)[:200],
+                                   "every combination of these blocks is satisfiable")
+                    break
+                bad = None
+                for kk, (pth, oo, lm) in enumerate(insts):
+                    lv, mv = [int(v) for v in oo.l], [int(v) for v in oo.m]
+                    if state[kk]["small_c"] and any(v >= lm for v in lv):
+                        bad = ("enabled-block-not-enforced-over-whole-list", pth, "small_c", lv, "every element < %d" % lm)
+                    if state[kk]["big_c"] and any(v <= 200 for v in mv):
+                        bad = ("enabled-block-not-enforced-over-whole-list", pth, "big_c", mv, "every element > 200")
+                    if not state[kk]["small_c"]:
+                        fs = free_seen.setdefault((kk, "small_c"), [0, 0])
+                        fs[0] += 1
+                        fs[1] += any(v >= 10 for v in lv)
+                    if not state[kk]["big_c"]:
+                        fs = free_seen.setdefault((kk, "big_c"), [0, 0])
+                        fs[0] += 1
+                        fs[1] += any(v <= 200 for v in mv)
+                if bad:
+                    ck.oracle_fail(bad[0] + ":" + bad[2], {"top": top, "ops": ops, "instance": list(bad[1])}, bad[3], bad[4])
+                    break
+        for (kk, bn), (n, out) in free_seen.items():
+            # >= 2 elements of 8 bits each: P(all of 12 calls inside a range of <= 10 or 55 values) < 1e-6
+            if n >= 12 and out == 0:
+                ck.oracle_fail("disabled-block-still-enforced:" + bn, {"top": top, "ops": ops, "instance": list(insts[kk][0])},
+                               {"calls_with_block_off": n, "calls_leaving_its_range": 0}, "a block that is off constrains nothing")
+    ck.sample({"kind": "toggle/growth histories", "histories": n_hist})
+
+
 if __name__ == "__main__":
     common.run_main(lambda: worldcheck.standard_main(
         "C07", ["C07"], THEOREMS, {"nops": 10, "derive": 0.8, "deep": 0.5, "new": 0.2}, 150, 6000,
         ["as C01 for the solve itself", "instances held in lists are not generated in this revision (C04 is not claimed)"],
-        RULE, keep=lambda w: not w.startswith("callbacks")))
+        RULE, keep=lambda w: not w.startswith("callbacks"), extra_run=toggle_growth_histories))
